@@ -167,17 +167,11 @@ def normRound (norm : Int) (days : Int) (o : Resolved) : Out (Int × Int) :=
     | none => .err .assert
   | _ => .err .assert
 
-/-- `Duration::round_with_provider(options, None, _)` (no relativeTo). -/
-def Dur.roundNoRel (d : Dur) (raw : RawOptions) : Out Dur := do
-  let existing := d.defaultLargestUnit
-  let o ← fromDurationOptions raw existing
+/-- The general path of `Duration::round_with_provider(options, None, _)`: no calendar units without a reference;
+    the exact total (a day counting 24 h) is rounded and re-balanced up to the largest unit. -/
+def Dur.roundNoRelSlow (d : Dur) (o : Resolved) : Out Dur :=
   let calendarUnitsPresent := !(d.years = 0 && d.months = 0 && d.weeks = 0)
-  let hoursToDays := decide (d.hours.natAbs ≥ 24)
-  let isNoop := o.smallest = .nanosecond ∧ o.increment = 1
-  if isNoop ∧ o.largest = existing ∧ !calendarUnitsPresent ∧ !hoursToDays ∧ d.minutes.natAbs < 60 ∧
-      d.seconds.natAbs < 60 ∧ d.milliseconds.natAbs < 1000 ∧ d.microseconds.natAbs < 1000 ∧
-      d.nanoseconds.natAbs < 1000 then .ok d
-  else if calendarUnitsPresent ∨ o.largest.isCalendarUnit then .err .range
+  if calendarUnitsPresent ∨ o.largest.isCalendarUnit then .err .range
   else if o.smallest.isCalendarUnit then .err .assert
   else do
     let n ← normChecked (d.timeNs + F64.toI64Sat d.days * 86400000000000)
@@ -186,6 +180,19 @@ def Dur.roundNoRel (d : Dur) (raw : RawOptions) : Out Dur := do
     let _ ← Dur.new ⟨0, 0, 0, days, 0, 0, 0, 0, 0, 0⟩
     let nd ← normChecked (r + F64.toI64Sat days * 86400000000000)
     timeFromNormalized nd o.largest
+
+/-- The condition of the "nothing to do" shortcut of `Duration::round`. -/
+def Dur.roundIsNoop (d : Dur) (o : Resolved) : Prop :=
+  (o.smallest = .nanosecond ∧ o.increment = 1) ∧ o.largest = d.defaultLargestUnit ∧
+    !(!(d.years = 0 && d.months = 0 && d.weeks = 0)) ∧ !(decide (d.hours.natAbs ≥ 24)) ∧ d.minutes.natAbs < 60 ∧
+    d.seconds.natAbs < 60 ∧ d.milliseconds.natAbs < 1000 ∧ d.microseconds.natAbs < 1000 ∧ d.nanoseconds.natAbs < 1000
+
+instance (d : Dur) (o : Resolved) : Decidable (d.roundIsNoop o) := by unfold Dur.roundIsNoop; infer_instance
+
+/-- `Duration::round_with_provider(options, None, _)` (no relativeTo). -/
+def Dur.roundNoRel (d : Dur) (raw : RawOptions) : Out Dur := do
+  let o ← fromDurationOptions raw d.defaultLargestUnit
+  if d.roundIsNoop o then .ok d else d.roundNoRelSlow o
 
 /-- `DurationTotal::new(ns, unit).to_fractional_total()`: fl(fl(q) + fl(fl(r) / fl(unit))). -/
 def durationTotal (ns : Int) (unit : Nat) : F64.Dyadic :=
